@@ -542,7 +542,18 @@ def check_agreements(ctx):
     gi = ctx.tree.func(GRAPH, "graph._get_err_indices")
     positional = any(isinstance(l, ast.For) and A.call_name(l.iter) == "enumerate" and l.iter.args
                      and A.src(l.iter.args[0]) == "self._parsed_error_names" for l in A.walk_local(gi))
-    if ctx.require(positional, "C12-g", gi, "_get_err_indices no longer derives the column from the position in _parsed_error_names"):
+    prefix_tests = [c for c in A.walk_local(gi) if isinstance(c, ast.Call) and isinstance(c.func, ast.Attribute)
+                    and c.func.attr in ("startswith", "find", "index", "count")] + [
+        c for c in A.walk_local(gi) if isinstance(c, ast.Compare) and any(isinstance(o, (ast.In, ast.NotIn)) for o in c.ops)
+        and any(isinstance(x, ast.Name) and x.id in A.func_params(gi) for x in ast.walk(c.left))]
+    for c in prefix_tests[:1]:
+        ctx.violation("C12-g", c, "_get_err_indices picks the error columns of a coordinate by a textual match on the field name (`%s`) "
+                      "instead of comparing the parsed coordinate of the error with the coordinate's name: the errors of another "
+                      "coordinate whose name merely begins with (or contains) this one -- 'error_Ereco' for 'E' -- are rescaled with it, "
+                      "so scale() no longer leaves the other coordinates untouched" % A.short(c, 50), construct="err-columns-by-text-match")
+    if prefix_tests:
+        pass
+    elif ctx.require(positional, "C12-g", gi, "_get_err_indices no longer derives the column from the position in _parsed_error_names"):
         rets = [r.value.id for r in A.walk_local(pe) if isinstance(r, ast.Return) and isinstance(r.value, ast.Name)]
         if ctx.require(len(set(rets)) == 1, "C12-g", pe, "_parse_error_names: expected one returned list"):
             R = rets[0]
